@@ -249,6 +249,37 @@ def run(ctx):
                 for (full, doc, toks) in ((1, 1, tf),):
                     model_cases.append([1, full, doc] + s2n(text))
                     keys.append((text, full, doc, toks))
+    # reports in raising mode: an exception carries the position of ITS token (and the [l:c: v] suffix), or none
+    import xml.dom
+    import cssutils
+    from harness import impl
+
+    def report(fn):
+        try:
+            fn()
+        except xml.dom.DOMException as e:
+            import re as _re
+            m_ = _re.search(r'\[(\d+):(\d+): ', str(e))
+            return (type(e).__name__, getattr(e, 'line', None), getattr(e, 'col', None), (int(m_.group(1)), int(m_.group(2))) if m_ else None)
+        return None
+    SEQ = [lambda: cssutils.parseString('a{}').__setattr__('cssText', '\n\n   @import x;'),            # positioned: line 3
+           lambda: cssutils.css.Selector().__setattr__('selectorText', ''),                              # token-less
+           lambda: cssutils.css.CSSStyleRule().__setattr__('selectorText', 'a,\n  ,b'),                 # positioned: line 2
+           lambda: cssutils.stylesheets.MediaList().__setattr__('mediaText', '/*c*/'),                   # token-less
+           lambda: cssutils.css.CSSCharsetRule().__setattr__('encoding', 'no-such-enc'),                 # token-less
+           lambda: cssutils.css.CSSStyleDeclaration().__setattr__('cssText', 'a: 1;\n\n\n  b: }')]  # positioned: line 4
+    import itertools
+    for order in list(itertools.permutations(range(len(SEQ)), 3))[:(40 if quick else 120)]:
+        impl.reset()
+        got = [report(SEQ[i]) for i in order]
+        ctx.case(('report-positions', order))
+        for i, g in zip(order, got):
+            if g is None:
+                continue
+            name, line, col, suffix = g
+            if (suffix is None and (line is not None or col is not None)) or (suffix is not None and (line, col) != suffix):
+                ctx.violation('position', {'family': 'report-positions', 'order': list(order), 'report': i},
+                              '%s carries line/col %r/%r, its message says %r' % (name, line, col, suffix), KNOWN_PRED)
     ctx.sample({'text': cases[len(cases) // 2][1], 'tokens': [list(t) for t in impl_tokens(cases[len(cases) // 2][1], True, True)][:8]})
     ctx.sample({'text': cases[3][1]})
     ctx.extra['input_distribution'] = kinds
